@@ -141,6 +141,34 @@ class FA:
         return self.cfg.nodes[n].lineno
 
     # ---- convenience queries used by the property modules --------------------------------------------
+    def alternatives(self, t, limit=4):
+        """Case split of a term on one local with several reaching definitions (('var', name, defs) - e.g. assigned in both arms
+        of an if): the list of terms obtained by substituting, consistently, the value of one definition at a time.  Terms
+        without such a local, or whose definitions are not plain assignments, are returned as they are ([t])."""
+        from .sym import subterms
+        vs = [x for x in subterms(t) if isinstance(x, tuple) and x and x[0] == "var" and len(x) > 2 and len(x[2]) > 1]
+        if not vs:
+            return [t]
+        v = vs[0]
+        if len(v[2]) > limit:
+            return [t]
+        vals = []
+        for dn in sorted(v[2]):
+            nd = self.cfg.nodes.get(dn)
+            a = getattr(nd, "ast", None)
+            if not (nd is not None and nd.kind == "stmt" and isinstance(a, ast.Assign) and len(a.targets) == 1 and
+                    isinstance(a.targets[0], ast.Name) and a.targets[0].id == v[1]):
+                return [t]
+            vals.append(self.sym.term(a.value, dn))
+
+        def rep(x, val):
+            if x == v:
+                return val
+            if isinstance(x, tuple):
+                return tuple(rep(y, val) for y in x)
+            return x
+        return [rep(t, val) for val in vals]
+
     def conds_at(self, n: int, kinds=("test",), asserts=True) -> List[Term]:
         """Branch conditions that hold on every path reaching n (normal forms, negated for False edges)."""
         from .sym import negate
